@@ -456,7 +456,10 @@ func (it *Interp) runFrame(fr *frame) Value {
 			case *ssa.Jump:
 				next = blk.Succs[0]
 			case *ssa.If:
-				cond := it.get(fr, x.Cond).(*smt.Term)
+				cond, isTerm := it.get(fr, x.Cond).(*smt.Term)
+				if !isTerm {
+					it.abort("branch on a non-boolean engine value %T in %s", it.get(fr, x.Cond), fr.fn.String())
+				}
 				var taken bool
 				if cond.IsConst() {
 					taken = cond.IsTrue()
